@@ -77,12 +77,13 @@ fn show_outs<T: V>(r: &Outs<T>) -> String {
     if items.len() <= 16 {
         return items.join(",");
     }
-    let mut h: u64 = 0;
-    for c in &codes {
-        h = (h * 31 + c) % 4294967296;
+    let (mut s1, mut s2): (u128, u128) = (0, 0);
+    for (i, c) in codes.iter().enumerate() {
+        s1 += *c as u128;
+        s2 += (i as u128 + 1) * *c as u128;
     }
     let n = items.len();
-    format!("#{}/{}/{}/{}", n, h, items[..3].join(","), items[n - 3..].join(","))
+    format!("#{}/{}/{}/{}/{}", n, s1, s2, items[..3].join(","), items[n - 3..].join(","))
 }
 
 // ---------------------------------------------------------------- driving the iterators
@@ -565,7 +566,7 @@ where
     if cfg.thorough {
         for &a in &all {
             for &b in &all {
-                let steps = exhaust_steps(a, b, 300);
+                let steps = exhaust_steps(a, b, 12);
                 one_hist(out, K::RR, a, b, "FB", steps, b'V');
                 one_hist(out, K::RIR, a, b, "BBF", steps, b'V');
             }
@@ -690,9 +691,16 @@ pub fn run(cfg: &Cfg, out: &mut Out) {
     one_hist(out, K::RI, u16::MAX - 300, u16::MAX, "FFB", 310, b'V');
     one_hist(out, K::RI, i16::MIN, i16::MIN + 300, "BBF", 310, b'V');
     if cfg.thorough {
-        one_hist(out, K::RI, '\0', char::MAX, "F", 1_112_070, b'V');
-        one_hist(out, K::RI, '\0', char::MAX, "B", 1_112_070, b'V');
-        one_hist(out, K::R, '\0', char::MAX, "FB", 1_112_070, b'V');
+        // every code point stepped over from the front and from the back (in chunks)
+        let mut lo = 0u32;
+        while lo <= 0x10FFFF {
+            let hi = (lo + 59_999).min(0x10FFFF);
+            let a = char::from_u32(lo).unwrap_or('\u{E000}');
+            let b = char::from_u32(hi).unwrap_or('\u{D7FF}');
+            one_hist(out, K::RI, a, b, "F", 60_003, b'V');
+            one_hist(out, K::RI, a, b, "B", 60_003, b'V');
+            lo += 60_000;
+        }
         one_hist(out, K::RI, u16::MIN, u16::MAX, "BF", 65_540, b'V');
         one_hist(out, K::RI, i16::MIN, i16::MAX, "FFB", 65_540, b'V');
     }
